@@ -10,6 +10,8 @@ from vlib.pyround import to_quantum
 
 PID = 'C20'
 PROPERTY_FILE = 'Properties/C20.v'
+# generated model parts (translate/) this property's model / proofs really depend on
+GEN_DEPS = ['Catalogue', 'Prefixes', 'DocTables', 'QuantityImpl']
 MODEL_TARGETS = ['Corr/C20Corr.vo']
 PROOF_TARGETS = ['Proofs/C20Proofs.vo']
 COQ_HEADER = ("From Coq Require Import String.\n"
